@@ -161,7 +161,9 @@ class YPPrologCompiler:
     def pop_bound_vars(self):
         self.bound_vars.pop()
     def filter_free_variables(self,variables):
-        return list(set([ v for v in variables if v not in self.bound_vars[-1] ]))
+        # keep the order of first occurrence: a set would order the names by
+        # their hash, which differs from one process to the next
+        return list(dict.fromkeys([ v for v in variables if v not in self.bound_vars[-1] ]))
     def compile_program(self,program):
         funcs = []
         for func,clauses in program.items():
